@@ -1530,7 +1530,7 @@ class Bolus(Dose, Immutable):
         >>> dose.free_symbols
         {AMT}
         """
-        return {self._amount}
+        return self._amount.free_symbols
 
     def subs(self, substitutions: Mapping[Expr, Expr]) -> Bolus:
         """Substitute expressions or symbols in dose
